@@ -15,9 +15,9 @@ out = ["### 8.4 Seeded changes (written by independent sub-agents; `seeded/<id>/
        "Each sub-agent received only the text of one property and its own scratch worktree of /repo (nothing from /verif), and",
        "returned a change that still passes the 55 repository tests plus a demonstration script.  Every change was confirmed",
        "with `tools/seedcheck.sh` (demo PASS on the unmodified tree, tests pass with the change, demo FAIL with the change) and",
-       "then the property's quick check was run against the changed worktree (`VERIF_REPO=<worktree>`).  Fourteen rounds (a: free",
+       "then the property's quick check was run against the changed worktree (`VERIF_REPO=<worktree>`).  Fifteen rounds (a: free",
        "choice, b: a named focus area per property, c: \"not the obvious place\", d: disguised as a performance / clean-up",
-       "commit, e: needs an exact coincidence a random generator would not produce, f: in a rarely executed branch or environment-dependent path, g: an interaction of two options, sections, calls or argument types, h: a well-meant normalisation or leniency, i: at a limit or in a numeric / positional detail, j: the fallback / negative clause of the property, k: a shared helper or table changed for the worse of one caller, l: order and completeness of effects, m: a small feature or compatibility shim added next to the property's code, n: a Python semantics subtlety), %d changes: %d were reported by the check as it" % (len(rows), len(rows) - len(missed)),
+       "commit, e: needs an exact coincidence a random generator would not produce, f: in a rarely executed branch or environment-dependent path, g: an interaction of two options, sections, calls or argument types, h: a well-meant normalisation or leniency, i: at a limit or in a numeric / positional detail, j: the fallback / negative clause of the property, k: a shared helper or table changed for the worse of one caller, l: order and completeness of effects, m: a small feature or compatibility shim added next to the property's code, n: a Python semantics subtlety, o: indirectly, from a helper / data file / argument definition that a reviewer of the property would not look at), %d changes: %d were reported by the check as it" % (len(rows), len(rows) - len(missed)),
        "stood at the time, %d were missed and led to the strengthening noted per seed in `meta.json` (`history`); after that all" % len(missed),
        "%d but three (C10-k, C18-n, C20-n: not pursued, their triggers lie outside the input domain - reasons in their `meta.json`) are" % len(rows),
        "reported by the quick tier at workload seeds 0 and 5 (`tools/reseed.sh` re-applies every patch to a fresh worktree and re-checks).",
@@ -60,6 +60,11 @@ out += ["",
         "  two sides in processes of their own, and let the junk be a *sibling* of the good input (same component, other routing);",
         "* an exception escaping the decoder under test is a violation to report, never a crashed shard;",
         "* do not accept two readings where the code base has one (declared trace-buffer size inside an entry);",
+        "* *the property's functions are not where it breaks*: ten of the twenty 'indirect' changes of round o were missed at",
+        "  first - each check drove its own decoder and nothing around it.  What closed the gap was running the same content the",
+        "  way it reaches a user: the section inside a PEL through `peltool` in a real process (`vf/iocli.py`), files that are",
+        "  links, paths that are relative and oddly named, the C locale, several invocations in one process, a look-alike",
+        "  neighbour as the first thing a process sees, a section without payload;",
         "* *features are keyed by names and constants*: a convenience added next to the decoder triggers on a directory called",
         "  `logs`, a file name with `[`, a `#define`, a `<pre>` tag, a `%%t`, an earlier output of the same log, one of four model",
         "  words.  Name things the way the domain does, leave earlier results lying around, and take the dictionary from the",
